@@ -202,8 +202,8 @@ class G:
     def hist_step(self, x, keys, force=None):
         r = self.r
         op = force or r.choices(["add", "cadd", "addint", "addmany", "rem", "crem", "addr", "remr", "flip", "clear", "opt",
-                        "cloneswap", "detach", "setcow", "query", "walk4096", "fillempty", "emptyedge", "trimruns"],
-                       [10, 8, 2, 4, 8, 8, 8, 8, 8, 0.3, 2, 2, 1, 1, 6, 2.5, 1, 2.5, 1.2])[0]
+                        "cloneswap", "detach", "setcow", "query", "walk4096", "fillempty", "emptyedge", "trimruns", "addmanyrun"],
+                       [10, 8, 2, 4, 8, 8, 8, 8, 8, 0.3, 2, 2, 1, 1, 6, 2.5, 1, 2.5, 1.2, 0.8])[0]
         self.count("histop:" + op)
         if op in ("add", "cadd", "addint", "rem", "crem"):
             self.emit("%s %s %d" % (op, x, self.val_near(keys)))
@@ -249,6 +249,19 @@ class G:
                     self.emit("dig %s" % other)
                 if side == y:
                     self.emit("dig %s" % x)
+            elif how == "cowclone" and c < 0.75:
+                # RunOptimize (content-neutral) on one side while the containers are shared, then an in-place union with a sparse
+                # bitmap on that side: the other side keeps its content AND its size
+                side, other = (x, y) if r.random() < 0.5 else (y, x)
+                z = self.fresh()
+                self.emit("opt %s" % side)
+                k = r.choice(list(keys)) if keys else 0
+                self.emit("of %s %s" % (z, " ".join(str(k * CH + v) for v in sorted(r.sample(range(CH), r.choice([5, 300, 900]))))))
+                self.emit("ior %s %s" % (side, z))
+                self.emit("dig %s" % other)
+                self.emit("size %s" % other)
+                self.emit("wf %s" % other)
+                self.count("histop:cow-opt-ior")
             else:
                 self.emit("add %s %d" % (y, self.val_near(keys)))
                 self.emit("dig %s" % x)
@@ -323,6 +336,16 @@ class G:
             self.emit("card %s" % x)
             self.emit("empty %s" % x)
             self.count("emptyedge:%s:%s" % (side, mut))
+        elif op == "addmanyrun":
+            # one batch of AddMany whose LAST group of values lands, scattered, in a chunk that is a run container
+            k = r.choice(list(keys)) if keys else 0
+            base = k * CH
+            self.emit("remr %s %d %d" % (x, base, base + CH))
+            a = r.randrange(0, 60000)
+            self.emit("addr %s %d %d" % (x, base + a, base + a + r.choice([100, 1000])))
+            other = [((k + 1) % 65536) * CH + r.randrange(CH)] if r.random() < 0.5 and k < 65535 else []
+            vals = other + [base + v for v in sorted(r.sample(range(CH), r.choice([200, 400, 700])))]
+            self.emit("addmany %s %s" % (x, " ".join(map(str, vals))))
         elif op == "trimruns":
             # a run chunk (>= 3 runs) whose runs are trimmed one value at a time from their ends, never re-optimised:
             # the chunk must stop being a run container when runs no longer pay (size bound, Validate)
@@ -647,7 +670,7 @@ def _sizeb(g, scale):
         x = g.fresh()
         g.emit("new %s" % x)
         for _ in range(r.choice([1, 2, 3])):
-            g.hist_step(x, {0}, force=r.choice(["trimruns", "trimruns", "walk4096", "fillempty", "emptyedge"]))
+            g.hist_step(x, {0}, force=r.choice(["trimruns", "trimruns", "walk4096", "fillempty", "emptyedge", "addmanyrun"]))
             g.emit("size %s" % x)
             g.emit("wf %s" % x)
         for _ in range(6):
